@@ -5,7 +5,6 @@
 From God Require Import Base.Prelude C09.RW C09.Spec C09.Integ C01.GenEnv C01.Spec C01.Registry.
 From God Require Export C01.Model.
 From Coq Require Import Floats String.
-From GodGen Require C01_Gen.
 Local Open Scope Z_scope.
 
 Definition t0 : Z := 3600000000000.
@@ -41,11 +40,14 @@ Inductive case :=
 | RCase (rows : list (list Z))
     (* registry, concurrent first use of fresh names: per name [g; do-entrants; distinct breakers; lost marks;
        probe via another handle rejected; probe via Do(name) rejected; forced] *)
-| MCase (side : nat) (calls : list (nat * Z)) (rej : list bool).
-    (* mixed stream through one breaker on a frozen clock: side 0 client BreakerInterceptor, 1 server unary,
-       2 server stream; per call (class, gRPC code): class 0 live context, status.Error(code) comes back;
-       1 the caller's own deadline has expired (DeadlineExceeded status); 2 cancelled context (Canceled status);
-       4, 5 panic; rej: cut off by the breaker *)
+| MCase (side : nat) (calls : list (nat * Z * nat)) (rej : list bool) (st : list Z).
+    (* mixed stream on a frozen clock: side 0 client BreakerInterceptor, 1 server unary, 2 server stream interceptor,
+       3 / 4 the HTTP engine's default chain (api/engine.go bindRoute) with Config.Timeout = 0 / > 0.
+       Per call (class, code, name): name = which method (RPC: full method names, some sharing their base name) /
+       which route (HTTP: method + path); RPC classes: 0 live context, status.Error(code) comes back; 1 the caller's
+       own deadline has expired (DeadlineExceeded status); 2 cancelled context (Canceled status); 4, 5 panic;
+       HTTP classes: 0 WriteHeader(code); 1 Write only; 2 nothing written; 4, 5 panic.
+       rej: cut off by the breaker (callee not reached); st: HTTP status the client got (RPC: empty) *)
 
 Definition to_ev (x : xev) : nat * ev :=
   match x with
@@ -84,25 +86,17 @@ Fixpoint b_run (r : registry) (now : Z) (evs : list xev) (rows : list (Z * Z * Z
   | _, _ => false
   end.
 
-(* name of a gRPC code constant -> its number (google.golang.org/grpc/codes) *)
-Definition grpc_code (nm : string) : Z :=
-  let tbl := [("codes.OK", 0); ("codes.Canceled", 1); ("codes.Unknown", 2); ("codes.InvalidArgument", 3);
-              ("codes.DeadlineExceeded", 4); ("codes.NotFound", 5); ("codes.AlreadyExists", 6);
-              ("codes.PermissionDenied", 7); ("codes.ResourceExhausted", 8); ("codes.FailedPrecondition", 9);
-              ("codes.Aborted", 10); ("codes.OutOfRange", 11); ("codes.Unimplemented", 12); ("codes.Internal", 13);
-              ("codes.Unavailable", 14); ("codes.DataLoss", 15); ("codes.Unauthenticated", 16)]%string in
-  match alookup String.eqb nm tbl with Some c => c | None => -1 end.
-
-(* codes.Acceptable read off the generated case table: first matching clause, else the default clause *)
-Definition grpc_acceptable (c : Z) : bool :=
-  let fix go (rows : list (list string * string)) (dflt : bool) : bool :=
-    match rows with
-    | [] => dflt
-    | (consts, ret) :: r =>
-        if existsb (fun nm => grpc_code nm =? c) consts then String.eqb ret "true" else go r dflt
-    end in
-  let dflt := existsb (fun row => match fst row with [] => String.eqb (snd row) "true" | _ => false end) C01_Gen.grpc_cases in
-  go C01_Gen.grpc_cases dflt.
+(* the benign-outcome predicates of the integrations, transcribed by hand (Link.v proves that the definitions
+   gogen regenerates from the Go source are these, for all inputs; this file does not depend on the generated
+   module, so the checkers stay available when the translator or a link breaks) *)
+(* rpc/internal/codes/accept.go:9-16: DeadlineExceeded Internal Unavailable DataLoss Unimplemented are not acceptable,
+   every other code -- named or not -- is *)
+Definition grpc_acceptable (c : Z) : bool := negb (existsb (Z.eqb c) [4; 13; 14; 15; 12]).
+(* lib/store/sqlx/conn.go:279-286 *)
+Definition m_sqlx (f : Z) (e : go_value) : bool :=
+  (existsb (Z.eqb e) [go_nil; sql_ErrNoRows; sql_ErrTxDone; context_Canceled] || (negb (f =? 0) && f_accept_fn e))%bool.
+(* lib/store/redis/redis.go acceptable *)
+Definition m_redis (e : go_value) : bool := existsb (Z.eqb e) [go_nil; red_Nil; context_Canceled].
 
 Definition http_threshold : Z := 500.        (* http.StatusInternalServerError, breakerhandler.go:34 *)
 
@@ -112,12 +106,12 @@ Definition rpc_mark (arg : Z) : bool := (arg / 100 =? 0) && grpc_acceptable (arg
 Definition pred (which : nat) (arg : Z) : bool :=
   match which with
   | 0%nat => grpc_acceptable arg
-  | 1%nat => C01_Gen.sqlx_acceptable (if 10 <=? arg then 1 else 0) (arg mod 10)
-  | 2%nat => C01_Gen.redis_acceptable arg
+  | 1%nat => m_sqlx (if 10 <=? arg then 1 else 0) (arg mod 10)
+  | 2%nat => m_redis arg
   | 3%nat => arg <? http_threshold
   | 7%nat => let cl := arg mod 100 in
-             C01_Gen.sqlx_acceptable ((arg / 100) mod 10) (if cl =? 9 then 99 else if cl =? 8 then 98 else cl)
-  | 8%nat => C01_Gen.redis_acceptable (arg mod 100)
+             m_sqlx ((arg / 100) mod 10) (if cl =? 9 then 99 else if cl =? 8 then 98 else cl)
+  | 8%nat => m_redis (arg mod 100)
   | _ => rpc_mark arg
   end.
 
@@ -129,15 +123,34 @@ Definition m_code (class : nat) (code : Z) : option Z :=
 Definition m_mark (class : nat) (code : Z) : bool :=
   match m_code class code with Some c => grpc_acceptable c | None => false end.
 
-(* frozen clock, one breaker: (accepts, total) only grow; a call may be cut off only when the excess is positive
-   (the coin is not scripted here: both answers are allowed then), and is let in and marked otherwise *)
-Fixpoint m_run (mark : nat -> Z -> bool) (a t : Z) (calls : list (nat * Z)) (rej : list bool) : bool :=
+(* HTTP through the engine's chain: RecoverHandler sits inside BreakerHandler, so a panic is a 500 *)
+Definition h_shape (class : nat) (code : Z) : shape :=
+  match class with 0%nat => SHeader code | 1%nat => SWrite | 2%nat => SNothing | _ => SPanic end.
+Definition h_mark (class : nat) (code : Z) : bool := http_mark true (h_shape class code).
+Definition is_http (side : nat) : bool := (3 <=? side)%nat.
+
+(* frozen clock, one breaker PER NAME: (accepts, total) only grow; a call may be cut off only when the excess of ITS
+   name is positive (the coin is not scripted here: both answers are allowed then), and is let in and marked otherwise *)
+Definition cnts := list (nat * (Z * Z)).
+Definition cget (s : cnts) (n : nat) : Z * Z := match alookup Nat.eqb n s with Some x => x | None => (0, 0) end.
+
+Fixpoint m_run (mark : nat -> Z -> bool) (s : cnts) (calls : list (nat * Z * nat)) (rej : list bool) : bool :=
   match calls, rej with
   | [], [] => true
-  | (cl, c) :: cs, r :: rs =>
-      if r then (0 <? excess2 a t) && m_run mark a t cs rs
-      else m_run mark (if mark cl c then a + 1 else a) (t + 1) cs rs
+  | (cl, c, n) :: cs, r :: rs =>
+      let (a, t) := cget s n in
+      if r then (0 <? excess2 a t) && m_run mark s cs rs
+      else m_run mark (aset Nat.eqb n (if mark cl c then a + 1 else a, t + 1) s) cs rs
   | _, _ => false
+  end.
+
+(* HTTP: what the client gets: 503 when cut off, else what the handler produced (a recovered panic: 500) *)
+Fixpoint h_status (calls : list (nat * Z * nat)) (rej : list bool) (st : list Z) : bool :=
+  match calls, rej, st with
+  | [], [], [] => true
+  | (cl, c, _) :: cs, r :: rs, x :: xs =>
+      (x =? (if r then 503 else http_status true (h_shape cl c))) && h_status cs rs xs
+  | _, _, _ => false
   end.
 
 (* response shapes of the api/handler driver *)
@@ -174,7 +187,8 @@ Definition model_ok (c : case) : bool :=
   | HCase k st code ok =>
       (code =? http_code (hguard k) (hshape k st)) && Bool.eqb ok (http_mark (hguard k) (hshape k st))
   | RCase rows => forallb r_row_ok rows
-  | MCase side calls rej => m_run m_mark 0 0 calls rej
+  | MCase side calls rej st =>
+      if is_http side then m_run h_mark [] calls rej && h_status calls rej st else m_run m_mark [] calls rej
   end.
 
 (* ---------- the property on the observations ---------- *)
@@ -251,13 +265,16 @@ Definition sustained (which : nat) (arg : Z) : bool :=
 Definition m_benign (class : nat) (code : Z) : bool :=
   match m_code class code with Some c => benign 0 c | None => false end.
 
-(* calls at whose start the drop ratio was >= 1/2 (2*excess >= 2*(total+1)): with 40 of them let through, a fair
+Definition h_benign (class : nat) (code : Z) : bool := http_status true (h_shape class code) <? 500.
+
+(* calls at whose start the drop ratio of their name was >= 1/2 (2*excess >= 2*(total+1)): with 40 of them, a fair
    coin has rejected none with probability 2^-40 *)
-Fixpoint m_hot (a t : Z) (calls : list (nat * Z)) (rej : list bool) : Z :=
+Fixpoint m_hot (ben : nat -> Z -> bool) (s : cnts) (calls : list (nat * Z * nat)) (rej : list bool) : Z :=
   match calls, rej with
-  | (cl, c) :: cs, r :: rs =>
+  | (cl, c, n) :: cs, r :: rs =>
+      let (a, t) := cget s n in
       (if (t + 1 <=? excess2 a t) then 1 else 0) +
-      (if r then m_hot a t cs rs else m_hot (if m_benign cl c then a + 1 else a) (t + 1) cs rs)
+      (if r then m_hot ben s cs rs else m_hot ben (aset Nat.eqb n (if ben cl c then a + 1 else a, t + 1) s) cs rs)
   | _, _ => 0
   end.
 
@@ -277,9 +294,13 @@ Definition spec_ok (c : case) : bool :=
                           | [g; ndo; distinct; miss; pb; pd; forced] => (distinct =? 1) && (miss =? 0) && (pb =? 1) && (pd =? 1)
                           | _ => false
                           end) rows
-  | MCase side calls rej =>
-      (* cut off only on real failure excess (Canceled and the other benign codes never move the breaker), and
-         a dependency that keeps failing (DeadlineExceeded of an expired caller deadline included) IS cut off *)
-      m_run m_benign 0 0 calls rej &&
-      (if 40 <=? m_hot 0 0 calls rej then existsb (fun r => r) rej else true)
+  | MCase side calls rej st =>
+      (* cut off only on real failure excess OF THE SAME NAME (Canceled and the other benign codes, statuses below 500,
+         and whatever happens under another method / route never move a breaker), and a dependency that keeps
+         failing (DeadlineExceeded of an expired caller deadline, a handler that panics on every request) IS cut
+         off; HTTP: the client gets 500 for every panic let in and 503 when cut off *)
+      let ben := if is_http side then h_benign else m_benign in
+      m_run ben [] calls rej &&
+      (if is_http side then h_status calls rej st else true) &&
+      (if 40 <=? m_hot ben [] calls rej then existsb (fun r => r) rej else true)
   end.
